@@ -90,7 +90,12 @@ H("h_datetime_fromstr::c12_fromstr_u5", ["C12", "C04"], "toml_datetime::Datetime
 
 # ---- C11: float overflow guard ------------------------------------------------------------------
 H("h_float::c11_float_overflow_guard", ["C11", "C01"], "numbers::float (float_, rest.try_map(parse), verify) with M2 + M3",
-  "[+-]? d (. d)? e [+-]? ddd : all sign choices, all digits symbolic (mantissa <= 2 digits, exponent 3 digits)", tier="thorough", measured_s=725, models=("M1", "M2", "M3", "M6"))
+  "[+-]? d (. d)? e [+-]? ddd : all sign choices, all digits symbolic (mantissa <= 2 digits, exponent 3 digits)", tier="thorough", measured_s=725, models=("M1", "M2", "M3", "M6"), mem_gb=30)
+H("h_float::c11_float_overflow_guard_small", ["C11", "C01"], "numbers::float (float_, rest.try_map(parse), verify) with M2 + M3",
+  "[-]? d e ddd : optional minus, 4 symbolic digits", measured_s=200, models=("M1", "M2", "M3", "M6"), mem_gb=30)
+
+H("h_float_writer::c11_write_f64_all_bits", ["C11"], "toml_write: <f64 as WriteTomlValue>::write_toml_value (unmodified source via E2)", "every f64 bit pattern (integrality of finite values judged by `% 1.0` on both sides, see M4)", measured_s=16, models=("E2", "M4"))
+H("h_float_writer::c11_write_f32_all_bits", ["C11"], "toml_write: <f32 as WriteTomlValue>::write_toml_value (unmodified source via E2)", "every f32 bit pattern", measured_s=11, models=("E2", "M4"))
 
 # ---- C05: nesting counter -----------------------------------------------------------------------
 H("h_recursion::c05_enter_exit_step", ["C05"], "parser::prelude::RecursionCheck::enter / exit", "every counter value current < LIMIT (symbolic usize), one step", measured_s=1, models=())
